@@ -228,6 +228,20 @@ fn dgram_scenario(rep: &mut Report, proto: Proto, k: u64) {
     rep.distinct.insert(crate::report::hash_of(&name));
 }
 
+/// Well-authenticated but malformed frames (the generators of the crash monitor, C07), a handful per decoder.
+fn malformed_scenario(rep: &mut Report, proto: Proto, role: crate::scn::Role, k: u64, limit: usize) {
+    let name = format!("authenticated-malformed/{}/{:?}", proto.name(), role);
+    let mut rng = Rng::derive(7, 0x4d41, k);
+    let users = if matches!(proto, Proto::Vmess(_)) { 1 } else { 0 };
+    let cfg = Cfg::random(&mut rng, proto, users);
+    pin_clock(NOW);
+    let target = gen::random_addr(&mut rng);
+    let before = rep.evaluations;
+    super::c07::authenticated_malformed_sampled(7, k, &cfg, role, &target, NOW, &mut rng, rep, &name, 9, limit);
+    rep.mon("malformed_frames_under_miri", rep.evaluations - before);
+    rep.distinct.insert(crate::report::hash_of(&name));
+}
+
 /// The local decoders and small helpers with unsafe code behind them.
 fn local_scenario(rep: &mut Report) {
     use octo_squirrel::protocol::socks5::codec::*;
@@ -355,6 +369,20 @@ pub fn run(a: &Args) -> Report {
         k += 1;
         let kk = k;
         scenarios.push(Box::new(move |r| dgram_scenario(r, p, kk)));
+    }
+    // the thorough tier (scale >= 1) adds the authenticated-malformed generators for every decoder role
+    if a.scale >= 1.0 {
+        use crate::scn::Role;
+        for p in all_protos() {
+            for role in [Role::ServerStream, Role::ClientStream, Role::ServerDgram, Role::ClientDgram] {
+                if matches!(p, Proto::Ss(_)) && matches!(role, Role::ServerDgram | Role::ClientDgram) {
+                    continue;
+                }
+                k += 1;
+                let kk = k;
+                scenarios.push(Box::new(move |r| malformed_scenario(r, p, role, kk, 10)));
+            }
+        }
     }
     scenarios.push(Box::new(local_scenario));
     scenarios.push(Box::new(race_scenario));
